@@ -202,6 +202,18 @@ func (ss *segmentStack) statsDeep() *SegmentStackStats {
 	return rv
 }
 
+// height returns the number of segments of the tallest stack among
+// this stack and the stacks of its child collections, recursively.
+func (ss *segmentStack) height() int {
+	rv := len(ss.a)
+	for _, childSegStack := range ss.childSegStacks {
+		if h := childSegStack.height(); h > rv {
+			rv = h
+		}
+	}
+	return rv
+}
+
 // ChildCollectionNames returns an array of child collection name strings.
 func (ss *segmentStack) ChildCollectionNames() ([]string, error) {
 	var childCollections = make([]string, len(ss.childSegStacks))
